@@ -12,9 +12,10 @@ import CrabModel.Dom.History
   * weak update = `weak_assign` (join of old and new), strong update = `assign`,
     load = `expand` + `assign` + `forget`, exactly as coded.
 
-  `array_assign` is modelled twice: as coded (`fixed = false`: `assign(lhs.smashed, rhs.smashed)`
-  when the size of rhs is known, nothing otherwise) and as repaired (`fixed = true`: forget +
-  expand, forget lhs when nothing is known about rhs).
+  `array_assign` is the repaired code (nothing if lhs = rhs; forget + expand when the size of rhs
+  is known; lhs forgotten otherwise).  The behaviour before the repair (`assign(lhs.smashed,
+  rhs.smashed)` when the size of rhs is known, nothing otherwise) is kept as `aAssignOld`, only to
+  state the counterexample that motivated the repair.
 -/
 namespace Crab
 namespace Dom
@@ -123,21 +124,22 @@ def aStore (esz : Nat → Nat) (st : St Bs) (a : Nat) (val : Lin) (strong : Bool
 def aStoreRange (esz : Nat → Nat) (st : St Bs) (a : Nat) (val : Lin) : St Bs :=
   if st.env a = some (esz a) then ⟨st.env, Bs.weakAssign st.base (.smashed a) (.lin val)⟩ else st
 
-/-- `array_assign(lhs, rhs)`.  As coded (`fixed = false`): if the size of rhs is a constant,
-    `set_size(lhs, size); assign(scalar_lhs, scalar_rhs)`, otherwise nothing.
-    Repaired (`fixed = true`): nothing if `lhs = rhs`; `-= scalar_lhs; expand(scalar_rhs, scalar_lhs)`
-    if the size is known; otherwise lhs is forgotten. -/
-def aAssign (fixed : Bool) (st : St Bs) (lhs rhs : Nat) : St Bs :=
-  if fixed then
-    if lhs = rhs then st else
-    match st.env rhs with
-    | some sz => ⟨setSize st.env lhs (some sz),
-                  Bs.expand (Bs.forget st.base (.smashed lhs)) (.smashed rhs) (.smashed lhs)⟩
-    | none => ⟨setSize st.env lhs none, Bs.forget st.base (.smashed lhs)⟩
-  else
-    match st.env rhs with
-    | some sz => ⟨setSize st.env lhs (some sz), Bs.assign st.base (.smashed lhs) (.var (.smashed rhs))⟩
-    | none => st
+/-- `array_assign(lhs, rhs)`: nothing if `lhs = rhs`; if the size of rhs is a constant,
+    `set_size(lhs, size); -= scalar_lhs; expand(scalar_rhs, scalar_lhs)`; otherwise lhs is
+    forgotten (`-= lhs`). -/
+def aAssign (st : St Bs) (lhs rhs : Nat) : St Bs :=
+  if lhs = rhs then st else
+  match st.env rhs with
+  | some sz => ⟨setSize st.env lhs (some sz),
+                Bs.expand (Bs.forget st.base (.smashed lhs)) (.smashed rhs) (.smashed lhs)⟩
+  | none => ⟨setSize st.env lhs none, Bs.forget st.base (.smashed lhs)⟩
+
+/-- `array_assign` BEFORE the repair (kept for the counterexample only): if the size of rhs is a
+    constant, `set_size(lhs, size); assign(scalar_lhs, scalar_rhs)`, otherwise nothing. -/
+def aAssignOld (st : St Bs) (lhs rhs : Nat) : St Bs :=
+  match st.env rhs with
+  | some sz => ⟨setSize st.env lhs (some sz), Bs.assign st.base (.smashed lhs) (.var (.smashed rhs))⟩
+  | none => st
 
 def nAssign (st : St Bs) (x : Nat) (e : Lin) : St Bs := ⟨st.env, Bs.assign st.base (.prog x) (.lin e)⟩
 def nAssume (st : St Bs) (c : (Nat → Int) → Prop) : St Bs := ⟨st.env, Bs.assume st.base c⟩
@@ -185,14 +187,11 @@ inductive Op where
   | widen (d p q : Nat)
   | copy (d p : Nat)
 
-def Op.isArrayAssign : Op → Bool
-  | .aAssign _ _ _ => true
-  | _ => false
-
-/-- abstract transformer and concrete transition relation of every operation.
+/-- abstract transformer and concrete transition relation of every operation (`asg` is the
+    implementation of `array_assign`).
     The relation of a strong store contains the client contract (`singleCell`), the relation of
     `array_assign` the uniform element size of the two arrays. -/
-def Op.toStep (esz : Nat → Nat) (fixed : Bool) : Op → Step (St Bs) CState
+def Op.toStepWith (asg : St Bs → Nat → Nat → St Bs) (esz : Nat → Nat) : Op → Step (St Bs) CState
   | .assign d x e => .trans d ⟨fun st => nAssign st x e, fun s s' => s' = s.setVar x (e.eval s.iv)⟩
   | .assume d c => .trans d ⟨fun st => nAssume st c, fun s s' => c s.iv ∧ s' = s⟩
   | .forget d x => .trans d ⟨fun st => nForget st x, fun s s' => ∃ v, s' = s.setVar x v⟩
@@ -208,13 +207,20 @@ def Op.toStep (esz : Nat → Nat) (fixed : Bool) : Op → Step (St Bs) CState
     .trans d ⟨fun st => Smash.aStoreRange esz st a val,
               fun s s' => cStoreRange (esz a) a lb.eval ub.eval val.eval s = some s'⟩
   | .aAssign d lhs rhs =>
-    .trans d ⟨fun st => Smash.aAssign fixed st lhs rhs, fun s s' => esz lhs = esz rhs ∧ cAssign lhs rhs s = some s'⟩
+    .trans d ⟨fun st => asg st lhs rhs, fun s s' => esz lhs = esz rhs ∧ cAssign lhs rhs s = some s'⟩
   | .join d p q => .upper d p q sJoin
   | .widen d p q => .upper d p q sWiden
   | .copy d p => .copy d p
 
-def toHist (esz : Nat → Nat) (fixed : Bool) (ops : List Op) : List (Step (St Bs) CState) :=
-  ops.map (Op.toStep esz fixed)
+/-- the operations of the code -/
+def Op.toStep (esz : Nat → Nat) : Op → Step (St Bs) CState := Op.toStepWith Smash.aAssign esz
+
+def toHist (esz : Nat → Nat) (ops : List Op) : List (Step (St Bs) CState) :=
+  ops.map (Op.toStep esz)
+
+/-- histories with `array_assign` as it was before the repair (counterexample only) -/
+def toHistOld (esz : Nat → Nat) (ops : List Op) : List (Step (St Bs) CState) :=
+  ops.map (Op.toStepWith aAssignOld esz)
 
 end Smash
 end Dom
